@@ -217,6 +217,8 @@ func pattern(rng *rand.Rand, n int, k int) []byte {
 		for i := range b {
 			b[i] = 0x55
 		}
+	case 5: // run-length structured: long runs of equal coils starting on and off the byte grid
+		return specref.PackCoils(libx.RunPattern(rng, n))
 	default:
 		rng.Read(b)
 	}
@@ -240,8 +242,12 @@ func run(ci any, r *mon.Rec) {
 	case "fc15":
 		if c.Lo >= 0 {
 			for cnt := c.Lo; cnt <= c.Hi; cnt++ {
-				for k := 0; k < 5; k++ {
-					one(c, r, fr, specref.Req{FC: 15, Unit: c.Unit, TID: c.TID, Addr: c.Addr, Qty: uint16(cnt), Data: pattern(rng, cnt, k)}, "coils", cnt)
+				for k := 0; k < 7; k++ { // patterns 5 and 6: run-length structured (two draws)
+					kk := k
+					if kk == 6 {
+						kk = 5
+					}
+					one(c, r, fr, specref.Req{FC: 15, Unit: c.Unit, TID: c.TID, Addr: c.Addr, Qty: uint16(cnt), Data: pattern(rng, cnt, kk)}, "coils", cnt)
 					n++
 				}
 			}
